@@ -19,6 +19,26 @@ CHECKS = {
     text="Hull.tla transcribes graham_scan_lower/upper and graham_scan (angular sort with nearer-first ties, pop rule with stack guard) action by action; invariants say chain = brute-force hull chain with strict turns, Graham result contains every extreme point, only boundary points, and equals the clockwise vertex cycle in general position; all 14.9k (thorough: ~10^5) behaviours are replayed into the code with exact index comparison.",
     note="integer grid coordinates (orientation exact in binary64); bounded n; start vertex convention documented",
     ref="5/C18"),
+ "C01": dict(
+    technique="TLC model checking of the Rdp and Fixed machines (termination, linear step bounds, well-formedness, every oracle; negative instances for the end-point split / 2-point seed) + TLC trace validation of recorded simplifier calls with sys.monitoring loop back-edge counts",
+    text="Rdp.tla / Fixed.tla mirror rdp.rdp and the priority-stack family loop by loop with lazily chosen memoised oracles; TLC proves termination (<>done under WF), steps <= 2n-3 / n-2, and the structural clauses for every oracle up to n=7 (Rdp) / n=5..6 (Fixed); each recorded public call (outcome incl. budget/watchdog, back-edge count, reduced, removed) is judged by Trace_Simplify against WellFormedClause and 2x the proved bound. ~24k calls per quick run over the full configuration product on adversarial curves.",
+    note="bounded n for M; T samples real-valued curves; step counts are loop back-edges observed with sys.monitoring (no source hook); hard budget 400n+4000 back-edges / 20 s watchdog",
+    ref="5/C01"),
+ "C04": dict(
+    technique="TLC model checking that the Rdp machine's output is explainable by its oracle + TLC trace validation of rdp.rdp outputs with the recursive ExplainClause operator over class/far tables from the library's primitives (harvested exact-tie thresholds)",
+    text="ExplainClause (SimplifyProps.tla) is the property: every retained segment with interior points is on the accepting side, every retained interior index is a farthest point of a rejected range, recursively. MC_Rdp shows the implementation-shaped machine refines it for every oracle; Trace_Simplify evaluates it on ~5k recorded rdp.rdp calls per quick run (5 metrics x 2 distances, thresholds harvested from observed costs so that >= vs > is visible).",
+    note="relative to the library's own cost/distance primitives (bit-exact classes; far sets noise-merged); results with > 40 retained points not validated",
+    ref="5/C04"),
+ "C05": dict(
+    technique="TLC model checking of the Fixed machine (exact size, stack = splittable retained segments sorted by priority, rdp_fixed(k) = prefix of the chain) + event-by-event TLC trace validation of the history rdp_fixed(k), k=0..n+1 (Trace_Chain)",
+    text="Trace_Chain consumes the chain event by event keeping the previous member as state: exact size min(max(k,2),n), nestedness, new index inside a retained segment, farthest point, maximal ordering score (noise-merged ranks of triangle/area/segment scores from library primitives). MC_Fixed proves the same of the machine for every far/priority oracle.",
+    note="ordering scores recomputed from public primitives; ranks noise-merged (rel 1e-9); chains cut at k=14 for n>16",
+    ref="5/C05"),
+ "C06": dict(
+    technique="TLC model checking of grdp/mp/minpoint modes of the Fixed machine against the chain generated by the same memoised oracle (ResultOk, TestedEvery; negative instance: test every second insertion) + TLC trace validation of grdp, mp_grdp(m) for every m, min_point_rdp against FirstAccepted over the recorded chain",
+    text="The property-level operators FirstAccepted / MpSize / the multi-threshold rule are evaluated by TLC on recorded histories {rdp_fixed(k)}_k with bit-exact acceptance classes of compute_global_cost; thresholds are harvested from chain costs (ties). MC_Fixed proves the variants return exactly the chain member the property names for every oracle.",
+    note="n<=24 for recorded chains; min_point_rdp's default configuration assumed as in the code's signature",
+    ref="5/C06"),
 }
 
 PENDING = {}
